@@ -21,6 +21,7 @@ import (
 	"github.com/cloudflare/circl/internal/zzverif/lib"
 	"github.com/cloudflare/circl/kem"
 	kemschemes "github.com/cloudflare/circl/kem/schemes"
+	"github.com/cloudflare/circl/math/mlsbset"
 	"github.com/cloudflare/circl/oprf"
 	"github.com/cloudflare/circl/sign"
 	"github.com/cloudflare/circl/sign/bls"
@@ -286,6 +287,22 @@ func TestVerifArgs(t *testing.T) {
 				}
 				return must(k.MarshalBinary())
 			}})
+			// scalar recoding: the scalar is given as a (possibly short)
+			// little-endian string
+			if enc, err := mlsbset.New(253, 2, 3); err == nil {
+				for _, n := range []int{1, 3, 31, 32} {
+					k := r.Bytes(n)
+					k[0] |= 1
+					k[n-1] &= 0x0F
+					calls = append(calls, argCall{"mlsbset.Encoder.Encode", [][]byte{k}, func(a [][]byte) []byte {
+						pw, err := enc.Encode(a[0])
+						if err != nil {
+							return []byte("ERR")
+						}
+						return []byte(pw.String())
+					}})
+				}
+			}
 			key := r.Bytes(16)
 			nonce := r.Bytes(16)
 			calls = append(calls, argCall{"ascon.Seal+Open", [][]byte{key, nonce, msg, dst}, func(a [][]byte) []byte {
